@@ -22,7 +22,9 @@ func (c *String) SetValue(str string) {
 
 // GetValue returns the value as string
 func (c *String) GetValue() string {
-	return c.Characteristic.GetValue().(string)
+	// nil (write-only, or no value set yet) reads as the zero value
+	v, _ := c.Characteristic.GetValue().(string)
+	return v
 }
 
 // OnValueRemoteGet calls fn when the value was read by a client.
